@@ -76,6 +76,11 @@ def setup():
   @gin.configurable(module='c09')
   def consumer2(v=None):
     return v
+  @gin.configurable(module='c09')
+  def batches(n=4):                  # a generator function: its body runs when the consumer pulls items
+    for i in range(n):
+      yield i
+
   @gin.config_scope('dz')            # a scope used as a decorator, created once, here, at root scope
   def decorated():
     OBS.append(('decorated', _observe_and_scribble()))
@@ -97,7 +102,7 @@ ENTRY = {
 VALID = [k for k in ENTRY if not k.startswith('!')]
 INVALID = [k for k in ENTRY if k.startswith('!')]
 LEAVES = ['none', 'probe', 'getconf_scoped', 'ref_scoped', 'boom_scoped', 'getconf_unscoped', 'kbd_scoped', 'kbd_ref_scoped',
-          'decorated_fn', 'getconf_scope_of_enclosing']
+          'decorated_fn', 'getconf_scope_of_enclosing', 'generator_scoped_lazy']
 
 
 def bound(tier):
@@ -156,6 +161,23 @@ def do_leaf(leaf, stack, res, prog):
     exp = [('probe', list(tgt), None)]
     if below:
       res.w('scoped_selector_equal_to_enclosing_scope')
+  elif leaf == 'generator_scoped_lazy':
+    # a generator configurable reached through a scoped selector and consumed lazily: what the consumer sees as active
+    # scope between two items, inside a scope entered in between, and afterwards, is the consumer's own
+    it = gin.get_configurable('p/c09.batches')()
+    seen = [next(it), gin.current_scope(), next(it), gin.current_scope()]
+    with gin.config_scope('between'):
+      seen += [next(it), gin.current_scope()]
+    seen.append(gin.current_scope())
+    it.close()
+    seen.append(gin.current_scope())
+    want = [0, top, 1, top, 2, top + ['between'], top, top]
+    if seen != want:
+      res.violation('scope_after_leaf', 'lazily consumed scoped generator under %r: consumer observed %r, model %r '
+                    '(program %r)' % (top, seen, want, prog), prog)
+    else:
+      res.w('lazy_generator_leaves_scope_alone')
+    exp = []
   elif leaf == 'decorated_fn':
     DECORATED()
     exp = [('decorated', top + ['dz'])]
